@@ -94,7 +94,7 @@ func genC19Script(rt *rapid.T, gates bool) []tOp {
 		if len(ts) > 0 {
 			choices = append(choices, "refresh", "refresh2", "stop", "clear", "clear2", "clearAtDue", "refreshAtDue", "advanceDue", "advanceDue", "advanceDue", "clearNil")
 			if gates {
-				choices = append(choices, "gateTickClear", "gateTickPass", "gateStopDouble", "gateTickClear")
+				choices = append(choices, "gateTickClear", "gateTickPass", "gateStopDouble", "gateTickClear", "gateTimeoutClear", "gateTimeoutClear", "gateTimeoutPass")
 			}
 		}
 		k := rapid.SampledFrom(choices).Draw(rt, l+".kind")
@@ -173,6 +173,22 @@ func genC19Script(rt *rapid.T, gates bool) []tOp {
 					ops = append(ops, tOp{Kind: k, I: i})
 				}
 			}
+		case "gateTimeoutClear", "gateTimeoutPass":
+			// the same window of a timeout: its goroutine has received the tick and not yet started the callback
+			var cand []int
+			for i, t := range ts {
+				if !t.interval && !t.cancelled {
+					cand = append(cand, i)
+				}
+			}
+			if len(cand) == 0 {
+				continue
+			}
+			i := rapid.SampledFrom(cand).Draw(rt, l+".i")
+			if k == "gateTimeoutClear" {
+				ts[i].cancelled = true
+			}
+			ops = append(ops, tOp{Kind: k, I: i})
 		case "gateStopDouble":
 			i := rapid.IntRange(0, len(ts)-1).Draw(rt, l+".i")
 			ts[i].cancelled = true
@@ -488,13 +504,34 @@ func runC19(ops []tOp, w *c19World) {
 			} else {
 				m.armed, m.due = true, w.now()+m.d
 			}
-		case "gateTickClear", "gateTickPass":
+		case "gateTickClear", "gateTickPass", "gateTimeoutClear", "gateTimeoutPass":
 			m := w.ts[o.I]
-			if !m.armed || !m.interval {
+			isTimeout := o.Kind == "gateTimeoutClear" || o.Kind == "gateTimeoutPass"
+			if !m.armed || m.interval == isTimeout {
 				continue
 			}
+			site := "timer.interval.tick"
+			if isTimeout {
+				site = "timer.timeout.tick"
+				// the next arrival at the yield point must be this timer's: no other timeout falls due before it
+				other := false
+				for j, x := range w.ts {
+					if j != o.I && !x.interval && x.armed && x.due <= m.due {
+						other = true
+					}
+				}
+				// (and no interval ticks a hundred thousand times while this step waits for the due instant)
+				for _, x := range w.ts {
+					if x.interval && x.armed && (m.due-w.now())/max(x.d, 1) > 100000 {
+						other = true
+					}
+				}
+				if other || m.d > time.Hour {
+					continue
+				}
+			}
 			d := m.due - w.now()
-			gp := GatePoint{"timer.interval.tick", g.Count("timer.interval.tick")}
+			gp := GatePoint{site, g.Count(site)}
 			g.mu.Lock()
 			g.plan[gp] = true
 			g.mu.Unlock()
@@ -512,14 +549,14 @@ func runC19(ops []tOp, w *c19World) {
 				delete(g.plan, gp)
 				g.mu.Unlock()
 				w.settleTo(w.now(), -1)
-				if o.Kind == "gateTickClear" {
+				if o.Kind == "gateTickClear" || o.Kind == "gateTimeoutClear" {
 					w.prompt(what, func() { utils.ClearInterval(m.t) })
 					m.armed = false
 				}
 				break
 			}
 			w.stats[o.Kind] = true
-			if o.Kind == "gateTickClear" {
+			if o.Kind == "gateTickClear" || o.Kind == "gateTimeoutClear" {
 				// cancel inside the window between tick and re-arm. The loop goroutine is held right after it
 				// received the tick, the cancellation returns (prompt checks that) before the goroutine is let
 				// go: whatever callback of this timer starts afterwards starts after the cancellation returned,
@@ -646,7 +683,7 @@ func TestC19TimersGated(t *testing.T) {
 	col := NewCollector("TestC19TimersGated",
 		"as TestC19Timers, plus gate steps that park the interval goroutine between receiving its tick and re-arming (vhook timer.interval.tick) and cancel it inside that window, and park a canceller between stopping the runtime timer and signalling (vhook timer.Stop.stopped) while a second cancellation runs. non-trivial: as TestC19Timers or a gate fired").Use(t)
 	rapid.Check(t, c19Property(t, col, true))
-	col.RequireClasses(t, "gateTickClear", "gateTickPass", "gateStopDouble", "concurrent-refresh.fired-or-stopped")
+	col.RequireClasses(t, "gateTickClear", "gateTickPass", "gateStopDouble", "concurrent-refresh.fired-or-stopped", "gateTimeoutClear", "gateTimeoutPass")
 }
 
 // TestC19IntervalTickWindow is the deterministic demonstration of the defect
